@@ -177,6 +177,13 @@ def headers_ctor_folds(p: Program) -> List[Item]:
                     q = getattr(q, "_parent", None)
                 if not in_loop:
                     continue
+                if not guarded:
+                    # `if name in store: value = f"{store[name]}, {value}"` followed by ONE store: the membership test is a sibling
+                    # statement of the store inside the same loop body
+                    for c in ast.walk(lp_):
+                        if isinstance(c, ast.Compare) and len(c.ops) == 1 and isinstance(c.ops[0], (ast.In, ast.NotIn)) and ast.unparse(c.left) == ktxt and ast.unparse(c.comparators[0]) == btxt \
+                                and c.lineno <= n.lineno:
+                            guarded = True
                 if guarded:
                     n_ok += 1
                 else:
